@@ -342,7 +342,9 @@ func countStmts(n ast.Node) int {
 			return false
 		}
 		if s, ok := n.(ast.Stmt); ok {
-			if _, isBlock := s.(*ast.BlockStmt); !isBlock {
+			switch s.(type) {
+			case *ast.BlockStmt, *ast.CaseClause, *ast.CommClause:
+			default:
 				c++
 			}
 		}
@@ -948,39 +950,32 @@ func (x *Exec) newHeapStruct(s *State, t types.Type, fields []string, vals []*Te
 	if !ok {
 		return r
 	}
-	inRepo := false
-	if _, ok := x.u.Pkgs[pkgShort(n.Obj().Pkg())]; ok {
-		inRepo = true
-	}
-	if inRepo {
-		for i := 0; i < st.NumFields(); i++ {
-			f := st.Field(i)
-			fv := x.u.fieldVar(n, f.Name())
-			var val *Term
-			if x.isHeapStructType(f.Type()) {
-				val = x.newHeapStruct(s, f.Type(), nil, nil)
-			} else {
-				val = x.u.zero(x.u.sortOf(f.Type()))
-			}
-			for j, fn := range fields {
-				if fn == f.Name() {
-					val = vals[j]
-				}
-			}
-			x.setSt(s, fv, Store(x.getSt(s, fv, arraySort(SRef, val.Sort)), r, val))
+	for i := 0; i < st.NumFields(); i++ {
+		f := st.Field(i)
+		if _, inRepo := x.u.Pkgs[pkgShort(n.Obj().Pkg())]; !inRepo && !f.Exported() {
+			continue // unexported fields of library types are opaque
 		}
-	} else {
-		// library struct: ghost fields are declared by zero-init rules in the prelude (ghost heap arrays named in
-		// Specs: "zeroinit <type> <ghostvar>")
-		for _, gz := range x.u.ghostZeroInits(x.u.namedKey(n)) {
-			gs := x.u.ghostSorts[gz]
-			_, vs, _ := isArraySort(gs)
-			x.setSt(s, gz, Store(x.getSt(s, gz, gs), r, x.u.zero(vs)))
+		fv := x.u.fieldVar(n, f.Name())
+		var val *Term
+		if x.isHeapStructType(f.Type()) {
+			if _, inRepo := x.u.Pkgs[pkgShort(n.Obj().Pkg())]; !inRepo {
+				continue // nested library structs are opaque
+			}
+			val = x.newHeapStruct(s, f.Type(), nil, nil)
+		} else {
+			val = x.u.zero(x.u.sortOf(f.Type()))
 		}
 		for j, fn := range fields {
-			fv := x.u.fieldVar(n, fn)
-			x.setSt(s, fv, Store(x.getSt(s, fv, arraySort(SRef, vals[j].Sort)), r, vals[j]))
+			if fn == f.Name() {
+				val = vals[j]
+			}
 		}
+		x.setSt(s, fv, Store(x.getSt(s, fv, arraySort(SRef, val.Sort)), r, val))
+	}
+	for _, gz := range x.u.ghostZeroInits(x.u.namedKey(n)) {
+		gs := x.u.ghostSorts[gz]
+		_, vs, _ := isArraySort(gs)
+		x.setSt(s, gz, Store(x.getSt(s, gz, gs), r, x.u.zero(vs)))
 	}
 	return r
 }
@@ -999,13 +994,16 @@ func (x *Exec) copyInto(s *State, t types.Type, dst, src *Term) {
 	if !ok {
 		return
 	}
+	for _, gz := range x.u.ghostZeroInits(x.u.namedKey(n)) {
+		gs := x.u.ghostSorts[gz]
+		cur := x.getSt(s, gz, gs)
+		x.setSt(s, gz, Store(cur, dst, Select(cur, src)))
+	}
 	if _, inRepo := x.u.Pkgs[pkgShort(n.Obj().Pkg())]; !inRepo {
-		for _, gz := range x.u.ghostZeroInits(x.u.namedKey(n)) {
-			gs := x.u.ghostSorts[gz]
-			cur := x.getSt(s, gz, gs)
-			x.setSt(s, gz, Store(cur, dst, Select(cur, src)))
+		switch x.u.namedKey(n) {
+		case "strings.Builder", "bytes.Buffer", "sync.Mutex", "sync.RWMutex":
+			return
 		}
-		return
 	}
 	for i := 0; i < st.NumFields(); i++ {
 		f := st.Field(i)
@@ -1113,6 +1111,12 @@ func (x *Exec) doReturn(s *State, vals []*Term, entry *State, pos token.Pos) {
 		x.obls = append(x.obls, &Obligation{Func: x.fi.Name, Name: x.uniq(fmt.Sprintf("%s#cover#return%s", x.fi.Name, tag)), Kind: "cover", Hyps: append([]*Term(nil), s.pc...), Goal: False, Mode: x.mode, ExpectSat: true, Text: "return reachable", Pos: fmt.Sprintf("%s:%d", x.fi.File, line), LemmaIndex: -1})
 	}
 	env := x.envFor(s, entry, token.NoPos)
+	// in postconditions parameter names denote the values at entry (Go parameters are mutable locals)
+	for o, t := range x.entryVars {
+		if v, ok := o.(*types.Var); ok {
+			env.bound[v.Name()] = withType(t, v.Type())
+		}
+	}
 	for i, n := range x.resultNames {
 		env.bound[n] = withType(vals[i], x.resultTypes[i])
 	}
@@ -1203,6 +1207,15 @@ func (x *Exec) resolveAssign(e *SExpr, env *TrEnv) []assignTarget {
 		panic(unsupported{fmt.Sprintf("%s: cannot resolve assigns target %s", e.Pos, e.Name)})
 	case "call":
 		// heap(T.f) whole heap array; maps(K,V)
+		if e.Name == "cell" && len(e.Args) == 2 && e.Args[0].Kind == "id" {
+			srt := e.Args[0].Name
+			ref := x.trExpr(e.Args[1], env)
+			return []assignTarget{{Var: "P." + mangle(srt), Sort: arraySort(SRef, srt), Idx: []*Term{ref}, Text: "cell(" + srt + ")"}}
+		}
+		if e.Name == "ptrs" && len(e.Args) == 1 && e.Args[0].Kind == "id" {
+			srt := e.Args[0].Name
+			return []assignTarget{{Var: "P." + mangle(srt), Sort: arraySort(SRef, srt), Text: "ptrs(" + srt + ")"}}
+		}
 		if e.Name == "fields" && len(e.Args) == 1 {
 			t := x.trExpr(e.Args[0], env)
 			return x.allFieldsOf(t)
@@ -1866,6 +1879,7 @@ func (x *Exec) execTypeSwitch(s *State, st *ast.TypeSwitchStmt, entry *State) ou
 	}
 	var subject ast.Expr
 	var bindName *ast.Ident
+	x.loweredSet[st.Assign.Pos()] = true
 	switch a := st.Assign.(type) {
 	case *ast.AssignStmt:
 		bindName = a.Lhs[0].(*ast.Ident)
